@@ -449,7 +449,7 @@ class Recognizer(IRecognizer):
             recognized_types, result = self.__recognize_user_classes(
                     node, expected_type)
         elif expected_type in (Any,):
-            recognized_types, result = [Any], REC_OK
+            recognized_types, result = {Any}, REC_OK
 
         if recognized_types is None:
             raise RecognitionError(
